@@ -7,7 +7,7 @@
     i.e. (sum_s Xs^T Xs) c = sum_s Xs^T ys.  Everything here is exact real arithmetic. *)
 From Coq Require Import Reals Lra List Permutation ZArith QArith.
 Import ListNotations.
-From SymfcV Require Import PyPrelude IPS Batch.
+From SymfcV Require Import PyPrelude IPS IPSInst Batch.
 From SymfcG Require Import BatchGen SolverStruct.
 Open Scope R_scope.
 
@@ -115,7 +115,35 @@ Section Dataset.
       assert (k * k <> 0) by (apply Rmult_integral_contrapositive; split; assumption).
       destruct (Rmult_integral _ _ H); [contradiction | assumption].
   Qed.
+
+  (** C13: a snapshot whose design map is zero (the undisplaced supercell: every row of X vanishes) can stand anywhere in the list or
+      be left out, WHATEVER its forces are: the solution set is the same. *)
+  Theorem normal_eqs_null_snapshot s0 ds1 ds2 ys c :
+    (forall d, Xs s0 d = vzero) -> (normal_eqs (ds1 ++ s0 :: ds2) ys c <-> normal_eqs (ds1 ++ ds2) ys c).
+  Proof.
+    intros H0.
+    assert (T : forall d, term ys c d s0 = 0) by (intro d; unfold term; rewrite H0; apply ip_zero_l).
+    unfold normal_eqs. split; intros H d; specialize (H d); rewrite map_app, rsum_app in *; cbn [map rsum] in *; rewrite T in *; lra.
+  Qed.
 End Dataset.
+
+(** ... whereas a snapshot whose FORCES are zero is an equation like any other (its displacements are not zero): leaving it out
+    changes the solution.  One coefficient, design "multiply by the displacement", snapshots (x, y) = (1, 1) and (1, 0): the
+    least-squares coefficient is 1/2 with both and 1 without the second. *)
+Section ZeroForceExample.
+  Definition zx (s : R * R) (c : R_IPS) : R_IPS := fst s * c.
+  Definition zy (s : R * R) : R_IPS := snd s.
+  Example zero_force_snapshot_matters :
+    normal_eqs R_IPS R_IPS (R * R) zx [(1, 1); (1, 0)] zy (/ 2) /\
+    normal_eqs R_IPS R_IPS (R * R) zx [(1, 1)] zy 1 /\
+    ~ normal_eqs R_IPS R_IPS (R * R) zx [(1, 1); (1, 0)] zy 1.
+  Proof.
+    unfold normal_eqs, term, zx, zy, vsub. cbn. repeat split.
+    - intro d. field.
+    - intro d. ring.
+    - intro H. specialize (H 1). lra.
+  Qed.
+End ZeroForceExample.
 
 (** ** posv and solve_linear_equation *)
 (** LAPACK posv is a section variable: it returns a vector and a status; the only assumption is
